@@ -608,6 +608,10 @@ func rewriteAst(rng *rand.Rand, cfg gen.Config) *gen.Node {
 			}
 			lo := rng.Intn(3)
 			l := &gen.Node{Kind: gen.KQuant, Lo: lo, Hi: []int{-1, -1, lo + 2}[rng.Intn(3)], Lazy: rng.Intn(4) == 0, Subs: []*gen.Node{{Kind: gen.KLit, Ch: ch}}}
+			if rng.Intn(3) == 0 {
+				// an explicitly atomic run must not take part in the folding
+				l = &gen.Node{Kind: gen.KAtomic, Subs: []*gen.Node{l}}
+			}
 			if rng.Intn(2) == 0 {
 				x = &gen.Node{Kind: gen.KSeq, Subs: []*gen.Node{lit(string(w)), l}}
 			} else {
